@@ -2387,9 +2387,11 @@ func (ctx Ctx) callExprInterface(cvs []coq.Decl, r *ast.CallExpr) []coq.Decl {
 	if signature, ok := ctx.typeOf(r.Fun).(*types.Signature); ok {
 		params := signature.Params()
 		for j := 0; j < params.Len(); j++ {
-			interfaceName = params.At(j).Type().String()
-			interfaceName = unqualifyName(interfaceName)
 			if v, ok := params.At(j).Type().Underlying().(*types.Interface); ok {
+				// (the conversion is named after the interface, not after
+				// whatever parameter happens to come last)
+				interfaceName = params.At(j).Type().String()
+				interfaceName = unqualifyName(interfaceName)
 				for m := 0; m < v.NumMethods(); m++ {
 					methods = append(methods, v.Method(m).Name())
 				}
